@@ -1910,6 +1910,24 @@ class Interp:
                             return "Qt iterator idiom: hasNext()/next() on every iteration"
                     if s.get("k") in ("if", "while", "for", "do", "switch"):
                         break
+        # it = c.begin(); end = c.end(); while (it != end) { ...; ++it; }
+        if kind == "while" and (cond.get("k") in ("binop", "call")) and cond.get("op") == "!=":
+            ops = [cond.get("lhs"), cond.get("rhs")] if cond.get("k") == "binop" else cond.get("args", [])
+            if len(ops) == 2:
+                from .util import deref_local
+                endc = skip_copies(deref_local(self.fn, ops[1]))
+                itp = self.lvalue_path(ops[0])
+                if isinstance(endc, dict) and endc.get("k") == "call" and (endc.get("callee") or "").split("::")[-1] in ("end", "cend", "constEnd", "rend", "crend") and itp:
+                    cont = self.lvalue_path(endc.get("obj"))
+                    body = n.get("body") or {}
+                    incs = [x for x in walk(body) if (x.get("k") == "unop" and x.get("op") == "++" and self.lvalue_path(x.get("e")) == itp)
+                            or (x.get("k") == "call" and x.get("op") == "++" and x.get("args") and self.lvalue_path(x["args"][0]) == itp)]
+                    # the step is a top-level statement of the body (executed on every iteration that does not leave the loop)
+                    top = body.get("body", []) if body.get("k") == "compound" else [body]
+                    stepped = any(any(y.get("id") == i_.get("id") for y in walk(t_)) and t_.get("k") not in ("if", "while", "for", "do", "switch") for t_ in top for i_ in incs)
+                    no_cont = not any(x.get("k") == "continue" for x in walk(body))
+                    if cont and stepped and no_cont and ("len(" + cont + ")") not in self.modified_in(body):
+                        return "iterator idiom: begin()..end() of a container the body does not modify, stepped once per iteration"
         # for (it = c.begin(); it != c.end(); ++it)
         if kind == "for" and (cond.get("k") == "binop" or cond.get("k") == "call") and cond.get("op") == "!=":
             inc = skip_copies(n.get("inc")) if isinstance(n.get("inc"), dict) else None
